@@ -75,6 +75,7 @@ type runOpts struct {
 	noCovers bool
 	only     *regexp.Regexp
 	scan     *scanOpts
+	astScan  *astScanOpts
 }
 
 func cmdRun(args []string) {
@@ -190,6 +191,13 @@ func runVerify(o *runOpts) (*RunOutput, error) {
 		}
 		scanRes = x.scanNondeterminism(fs, *o.scan)
 		scanRes = append(scanRes, x.scanMapRanges(fs)...)
+	}
+	if o.astScan != nil {
+		allowed := map[string]bool{}
+		for _, a := range o.astScan.Allowed {
+			allowed[a] = true
+		}
+		scanRes = append(scanRes, x.scanAstWrites(ld.allFuncs, allowed)...)
 	}
 	for _, cm := range ld.constMaps {
 		out.ConstTables[cm.g.Pkg.Pkg.Name()+"."+cm.g.Name()] = cm.src
@@ -445,7 +453,7 @@ func (x *Exec) effectiveContract(fn *ssa.Function, c *FuncContract) *FuncContrac
 			return out
 		}
 		m.Requires = append(sub(def.Requires), m.Requires...)
-		m.Ensures = append(sub(def.Ensures), m.Ensures...)
+		m.Ensures = append(append([]Clause{}, m.Ensures...), sub(def.Ensures)...) // own clauses first: the defaults may build on them
 		if m.RecDec == nil && def.RecDec != nil {
 			rd := sub([]Clause{*def.RecDec})[0]
 			m.RecDec = &rd
